@@ -59,6 +59,7 @@ func (vfs *OrefaFS) createNode(parent *node, absPath, fileName string, mode fs.F
 		id:    atomic.AddUint64(vfs.lastId, 1),
 		mtime: time.Now().UnixNano(),
 		mode:  mode,
+		dir:   mode.IsDir(),
 		uid:   vfs.User().Uid(),
 		gid:   vfs.User().Gid(),
 		nlink: 1,
@@ -141,6 +142,11 @@ func (nd *node) remove() {
 	nd.nlink--
 }
 
+// isDir reports whether the node is a directory, without reading the mode that Chmod changes.
+func (nd *node) isDir() bool {
+	return nd.dir
+}
+
 // setMode sets the permissions of the file node.
 func (nd *node) setMode(mode fs.FileMode) {
 	nd.mode &^= avfs.FileModeMask
@@ -165,7 +171,7 @@ func (nd *node) setOwner(uid, gid int) {
 
 // size returns the size of the file.
 func (nd *node) size() int64 {
-	if nd.mode.IsDir() {
+	if nd.isDir() {
 		return int64(len(nd.children))
 	}
 
